@@ -259,3 +259,48 @@ def A1(inp):
         if len(o.calls) == 1:
             cl['positional_values'] = And([Eq(x, y) for x, y in zip(o.calls[0][0], args)] or [True])
     return Res(cl, nontrivial=True, obs=lambda: dict(npos=npos, nkw=nkw, ctl=sorted(ctl), calls=show(o.calls), exc=show(exc)))
+
+
+@obligation('A4', props=('C11', 'C18', 'C14'), quick=[dict(observer=False), dict(observer=True)], stubs=_STUBS,
+            bounds='one oversized command sent in at most 4 chunks (sizes symbolic) to a voter or to a read-only node that disconnects after a symbolic number of chunks; a second voter is connected too')
+def A4(inp, observer):
+    """the receiver of a chunked entry disconnects in the middle of the transfer (the transport reports it while the leader is
+    sending): the send round raises nothing - also when the receiver is a read-only node, whose table entries vanish with the
+    disconnect -, nothing more goes to that peer and the other members are still served in the same round."""
+    from pvf.obligations.snapshot import HookTransport
+    ep = _install(inp)
+    B = inp.int('B', 1, 70000)
+    n = inp.int('n', 1, 4 * 70000)
+    inp.assume(And(n >= B, n + 64 <= 4 * B))
+    now = inp.real('now', 0)
+    lead, _ = so.make('a', ['c'] if observer else ['b', 'c'], so.Clock(now), inp)
+    lead.conf.appendEntriesBatchSizeBytes = B
+    tr = HookTransport()
+    put(lead, 'transport', tr)
+    cmd = _command(1, n)
+    so.set_log(lead, [(so.NOOP, 1, 0), (cmd, 2, 1)])
+    put(lead, 'raftCurrentTerm', 1); put(lead, 'raftState', L); put(lead, 'raftLeader', Node('a'))
+    b, c = Node('b'), Node('c')
+    for x in (b, c):
+        get(lead, 'connectedNodes').add(x)
+        get(lead, 'raftNextIndex')[x] = 2
+        get(lead, 'raftMatchIndex')[x] = 0
+        get(lead, 'lastResponseTime')[x] = now
+    if observer:
+        get(lead, 'readonlyNodes').add(b)
+    k = inp.choice('disconnect_after', 4) + 1
+    state = {'gone_at': None}
+
+    def on_hook():
+        # the k-th message of the round; if it went to b, b's connection breaks right then
+        if tr.sent[-1][0] == b:
+            state['gone_at'] = len(tr.sent)
+            getattr(lead, so.P + ('onReadonlyNodeDisconnected' if observer else 'onNodeDisconnected'))(b)
+    tr.hook_at, tr.hook = k, on_hook
+    _, exc = guard(getattr(lead, so.P + 'sendAppendEntries'))
+    cl = {'no_exception': exc is None}
+    if state['gone_at'] is not None:
+        cl['nothing_sent_to_a_disconnected_peer'] = all(nd != b for nd, m in tr.sent[state['gone_at']:])
+    if exc is None:
+        cl['other_member_served'] = any(nd == c for nd, m in tr.sent)
+    return Res(cl, nontrivial=state['gone_at'] is not None, obs=lambda: dict(observer=observer, k=k, gone_at=state['gone_at'], sent=[(nd.id, m.get('transmission')) for nd, m in tr.sent], exc=show(exc)))
